@@ -36,6 +36,7 @@ def parseEv? (s : String) : Option Ev :=
   | ["sendReturn", i] => i.toNat?.map Ev.sendReturn
   | ["closeCall"] => some .closeCall
   | ["closeCallInRecv"] => some .closeCallInRecv
+  | ["connCallInRecv"] => some .connCallInRecv
   | ["writerClose", c] => c.toNat?.map Ev.writerClose
   | ["closeReturn"] => some .closeReturn
   | ["cfgWrite", c] => c.toNat?.map Ev.cfgWrite
